@@ -236,7 +236,7 @@ MALFORMED = ["FREQ=DAILY;FOO=1", "FREQ=DAILY;INTERVAL=x", "FREQ=NEVER", "FREQ=DA
 def correspondence(ctx):
     basecorr.run(ctx)
     rng = ctx.subrng("corr")
-    n = ctx.budget(500, 15000)
+    n = ctx.budget(500, 10000)
     rules, texts = [], []
     reqs, exp = [], []
     for _ in range(n):
@@ -380,7 +380,7 @@ def oracle(ctx):
     oracle_sets(ctx)
     oracle_malformed(ctx)
     rng = ctx.subrng("oracle")
-    n = ctx.budget(500, 15000)
+    n = ctx.budget(500, 10000)
     shown = 0
     # rules on which the model and str() disagreed come first (failing-input search after a correspondence mismatch)
     seeded = [m["rule"] for m in getattr(ctx, "c13_str_mismatch_rules", [])][:200]
